@@ -26,7 +26,7 @@ ASSUMPTIONS = ["depth = longest chain of nested grammar-class instances; lists, 
                "a limit between the true minimum and the (conservative) reported minimum may be rejected up-front or served, never failed midway",
                "'completes without error' is judged on grammars without failing refinements; in the stratum with failing refinements (Flaky, infeasible Dependent) an operation may fail and only the depth of produced programs is judged"]
 
-FEAT = features(list=3, annlist=3, union=2, tuple=1, nested=2, cls=8, refined=2, standalone=1, concrete_start=1, infeasible=0, nested_generic=1, deep_chain=1, self_ref=1, nested_list=1, falsy=1, future_annotations=1)
+FEAT = features(list=3, annlist=3, union=2, tuple=1, nested=2, cls=8, refined=2, standalone=1, concrete_start=1, infeasible=0, nested_generic=1, deep_chain=1, self_ref=1, nested_list=1, falsy=1, future_annotations=1, union_generic=1)
 
 
 def budget(tier):
@@ -44,6 +44,32 @@ def initialiser_stratum(ctx, w, d, rm, lm):
     init = FullInitializer(d) if name == "full" else PositionIndependentGrowInitializer(d)
     from ..world import OpResult
 
+    if H.draw(3) == 0:
+        # F13 (history): the same initialiser object was used before on ANOTHER, deeper grammar for which the limit is infeasible
+        # (whatever happened there, failing included, must not show afterwards)
+        from geneticengine.representations.tree.initializations import MaxDepthDecider
+        from geneticengine.representations.tree.treebased import TreeBasedRepresentation
+        from ..seams import SimRandom
+        from ..spec import Built
+
+        chain = d + 2
+        deep = {"classes": [{"name": "A0", "kind": "abc", "parent": None, "weight": None, "fields": []},
+                            {"name": "C0", "kind": "data", "parent": "A0", "weight": None, "fields": [["f0", ["cls", f"K{chain - 1}"]]]}]
+                + [{"name": f"K{j}", "kind": "data", "parent": None, "weight": None, "fields": [["f0", ["bool"] if j == 0 else ["cls", f"K{j - 1}"]]]}
+                   for j in range(chain)],
+                "start": "A0", "considered": ["C0"] + [f"K{j}" for j in range(chain)]}
+        b2 = Built(deep)
+        try:
+            g2 = b2.extract()
+            rnd0 = SimRandom(ctx, "uniform", name="history", log=False)
+            rep2 = TreeBasedRepresentation(g2, MaxDepthDecider(rnd0, g2, chain + 3))
+            list(init.initialize(None, rep2, rnd0, 4))
+        except Exception:
+            pass
+        finally:
+            b2.dispose()
+        ctx.faults["carry_over"] += 1
+        ctx.stat("history:initialiser-served-a-deeper-grammar")
     res = OpResult("initialise")
     inds = w.guarded(res, lambda: list(init.initialize(None, w.rep, w.random, 2 + H.draw(5))))
     ctx.stat("initialiser_runs")
